@@ -19,6 +19,8 @@ pub enum Term {
     List(Vec<Term>, Option<String>),
     /// add(t1, t2) etc. (suiron function term)
     Func(String, Vec<Term>),
+    /// pair(t1, t2): a complex term used as an argument
+    Cplx(String, Vec<Term>),
 }
 
 #[derive(Serialize, Deserialize, Clone, Debug, PartialEq, Eq, Hash)]
@@ -96,6 +98,11 @@ impl Term {
                 name: name.clone(),
                 terms: args.iter().map(|t| t.to_suiron()).collect(),
             },
+            Term::Cplx(name, args) => {
+                let mut terms = vec![Unifiable::Atom(name.clone())];
+                terms.extend(args.iter().map(|t| t.to_suiron()));
+                Unifiable::SComplex(terms)
+            }
         }
     }
 }
@@ -214,7 +221,7 @@ impl fmt::Display for Term {
                 Some(t) => write!(f, "[{} | {}]", fmt_terms(items), t),
                 None => write!(f, "[{}]", fmt_terms(items)),
             },
-            Term::Func(name, args) => write!(f, "{}({})", name, fmt_terms(args)),
+            Term::Func(name, args) | Term::Cplx(name, args) => write!(f, "{}({})", name, fmt_terms(args)),
         }
     }
 }
